@@ -582,7 +582,9 @@ func execC14(cs *C14Case, replay bool) *c14Result {
 			}
 			bytesChanged = !bytes.Equal(snap, b)
 		}
-		if encErr == nil {
+		if encErr == nil && !bytesChanged {
+			// (bytes that changed under the caller are already a violation; they are not fed to the
+			// decoder, which trusts the lengths it finds in them)
 			func() {
 				defer func() {
 					if r := recover(); r != nil {
